@@ -361,6 +361,36 @@ func H_C16_session() {
 		return
 	}
 	vCover("create-ok")
+	if vC16Mode == 1 && vBool("then_update") {
+		// a modification (uplink harness only): the symbolic PDR gets another precedence
+		// and a filter the agent has not seen; everything sendUpdate writes must be valid
+		// too (or the update refused)
+		k := 0
+		if vC16Mode == 2 {
+			k = 1
+		}
+		upd := PacketForwardingRules{pdrs: []pdr{rules.pdrs[k]}, fars: []far{rules.fars[k]}}
+		upd.pdrs[0].precedence = vU32("prec_upd")
+		upd.pdrs[0].appFilter.proto, upd.pdrs[0].appFilter.protoMask = 132, 0xff // a filter the agent has not seen
+		all := rules
+		all.pdrs = append([]pdr{}, rules.pdrs...)
+		all.fars = append([]far{}, rules.fars...)
+		all.pdrs[k], all.fars[k] = upd.pdrs[0], upd.fars[0]
+		nU := len(env.srv.log)
+		vAccReset()
+		uerr := env.up4.sendUpdate(all, upd)
+		for _, u := range env.srv.log[nU:] {
+			vValidate(env.srv.info, u, "update")
+		}
+		vAccAssert()
+		if uerr == nil {
+			vCover("update-ok")
+			rules = all
+		} else {
+			vCover("update-refused")
+			return
+		}
+	}
 	n0 := len(env.srv.log)
 	vAccReset()
 	err = env.up4.sendDelete(rules)
